@@ -61,7 +61,7 @@ def programs(tier: str):
         for exc_elements in (False, True):
             if backlog > 4 and exc_elements:
                 continue
-            yield {"fix": True, "backlog": backlog, "exc_elements": exc_elements, "deadline_s": 3000, "validate": "first" if tier == "quick" else "all"}
+            yield {"fix": True, "backlog": backlog, "exc_elements": exc_elements, "none_elements": exc_elements and (backlog == 3 or tier != "quick"), "deadline_s": 3000, "validate": "first" if tier == "quick" else "all"}
     yield {"fix": True, "backlog": 3, "exc_elements": False, "loop_kw": True, "deadline_s": 3000, "validate": "first" if tier == "quick" else "all"}
     yield {"fix": True, "backlog": 4, "exc_elements": False, "initial": True, "loop_kw": True, "deadline_s": 3000, "validate": "first" if tier == "quick" else "all"}
     yield from _deep_programs(tier)
@@ -152,6 +152,8 @@ class QSys:
             ops.append("enq3")
         if self.program.get("exc_elements") and (room >= 1 or self.reason is not None):
             ops.append("enq_exc")
+            if self.program.get("none_elements"):
+                ops.append("enq_none")  # None / False as elements (a wrapper might take them for "nothing")
         ops += ["finish", "finish_err", "cancel"]
         if self.recv_task is None:
             ops.append("recv")
@@ -166,9 +168,11 @@ class QSys:
         hist = list(self.hist)
         viols = self.viols
         obs: list = [op]
-        if op in ("enq1", "enq3", "enq_exc"):
-            if op == "enq_exc":
-                els: list = [ElementErr(self._value())]
+        if op in ("enq1", "enq3", "enq_exc", "enq_none"):
+            if op == "enq_none":
+                els: list = [None if self._value() else False]
+            elif op == "enq_exc":
+                els = [ElementErr(self._value())]
             else:
                 els = [self._value() for _ in range(1 if op == "enq1" else 3)]
             try:
